@@ -125,8 +125,68 @@ def send_only(pid, ma, mb):
                    role=dict(kind=mb), solo=is_async, unwind=64 if not is_async else 12, weight=2)
 
 
+# block operands are evaluated in the caller's scope in front of the step, whichever macro of the pair is used: blocks that draw tickets
+# from a `Copy` counter of the caller make the place of evaluation part of the computed values
+TICKET_OPS = [
+    ("<|", "opt", "{ t = t.wrapping_add(1); mo(%(F)s, t ^ %(K)s) }"),
+    ("<|", "res", "{ t = t.wrapping_add(1); mk(%(F)s, t ^ %(K)s) }"),
+    ("<=", "opt", "{ t = t.wrapping_add(1); let tt = t; move || mo(%(F)s, tt ^ %(K)s) }"),
+    ("<=", "res", "{ t = t.wrapping_add(1); let tt = t; move |e: u8| mk(%(F)s, e ^ tt) }"),
+    ("!>", "res", "{ t = t.wrapping_add(1); let tt = t; move |e: u8| e ^ tt }"),
+    ("|>", "opt", "{ t = t.wrapping_add(1); let tt = t; move |v: u8| v ^ tt }"),
+    ("=>", "opt", "{ t = t.wrapping_add(1); let tt = t; move |v: u8| mo(v > %(K)s, v ^ tt) }"),
+    ("?>", "opt", "{ t = t.wrapping_add(1); let tt = t; move |v: &u8| *v > tt }"),
+    ("->", "opt", "{ t = t.wrapping_add(1); let tt = t; move |v: Option<u8>| v.map(|x| x ^ tt) }"),
+]
+
+
+def tickets(pid, ma, mb, site, step, seed):
+    from .dsl import Ctx
+    op, carrier, block = site
+    ctx = Ctx(rng(seed, pid))
+    is_async, is_try, _ = KINDS[ma]
+    mkv = (lambda: "mo(%s, %s)" % (ctx.f(), ctx.k())) if carrier == "opt" else (lambda: "mk(%s, %s)" % (ctx.f(), ctx.k()))
+    blk = lambda: block % dict(F=ctx.f(), K=ctx.k())
+    pre = "~" if step == 1 else ""
+    idf = "|> move |v: u8| v " if step == 1 else ""
+    branches = ["%s %s%s%s %s" % (mkv(), idf, pre, op, blk()) for _ in range(2)]
+    if step == 1:
+        branches.append(mkv())
+    ta = "%s! { %s }" % (ma, ", ".join(branches))
+    tb = ta.replace(ma + "!", mb + "!", 1)
+    msg = lambda t_: "\"C07[%s]: %s\"" % (pid, t_)
+    L = ["names_off();"] + list(ctx.decls) + ["let t0 = u();", "let mut t = t0;"]
+    L.append("let ra = %s;" % ta)
+    L.append("let ta_ = t;")
+    L.append("reset(); names_off(); t = t0;")
+    L.append("let rb = %s;" % tb)
+    L.append("vassert!(ra == rb, %s);" % msg("%s! and %s! compute the same values from block operands that draw from a counter of the caller" % (ma, mb)))
+    L.append("vassert!(ta_ == t, %s);" % msg("the caller's counter ends up the same under both macros"))
+    if not is_try:
+        L.append("vassert!(t == t0.wrapping_add(2), %s);" % msg("both blocks ran once in the caller's scope"))
+    L.append("vcover!(t != t0, \"tickets drawn\");")
+    L.append("vcover!(true, \"end reached\");")
+    return Program(pid, ta + "\n  vs\n" + tb, "    " + "\n    ".join(L), desc=dict(pair=[ma, mb], operator=op, carrier=carrier, step=step, blocks="draw tickets from a Copy counter of the caller"),
+                   group="tickets/%s~%s" % (ma, mb), role=dict(kind=mb), unwind=64, weight=2)
+
+
+def ticket_programs(tier, seed, start):
+    ps = []
+    i = start
+    pairs = PAIRS_SYNC + [("join", "spawn"), ("try_join", "try_spawn")]
+    for si, site in enumerate(TICKET_OPS):
+        for step in (0, 1):
+            for mi, (ma, mb) in enumerate(pairs):
+                i += 1
+                if tier == "quick" and (si + step + mi + seed) % 2:
+                    continue
+                ps.append(tickets("p%04d" % i, ma, mb, site, step, seed))
+    return ps
+
+
 def programs(tier, seed):
     ps = programs_main(tier, seed)
+    ps += ticket_programs(tier, seed, 700)
     i = 900
     for ma, mb in PAIRS_SYNC + PAIRS_ASYNC + [("join", "spawn"), ("try_join", "try_spawn"), ("join_async", "async_spawn"), ("try_join_async", "try_async_spawn")]:
         i += 1
@@ -173,6 +233,7 @@ META = dict(
     level="translation_validation",
     rule="programs: profile programs (symbolic payloads, symbolic failures in try kinds, optional handler) instantiated under both names of each pair: join/join_spawn, try_join/try_join_spawn "
          "(profiles <= 3x3, quick: <= 5 positions, every second), the four alias pairs (six shapes each + one try/non-try discriminating single-branch program), the async pairs; "
+         "ticket programs: nine block-operand sites x step in {0,1} x four pairs (quick: half, seed-rotated), the blocks draw from a Copy counter of the caller; "
          "packed 5 per query; disagreements_checked = program pairs discharged; distinct = distinct pair texts",
     functions_encoded=["all 12 proc-macro entry points of join/src/lib.rs (their Config triples) and the expansions they produce"],
     bounds=["branches <= 3, steps <= 3 (async <= 2)", "async programs are compared after one poll with always-ready gates", "thread / task placement symbolic per thread / task"],
